@@ -121,7 +121,7 @@ func procThreadCPU(tid int) time.Duration {
 
 func runC18(c *Ctx) {
 	rep := c.Rep
-	rep.Meta("cases: for every decoder of untrusted bytes (certificates, CSRs, CRLs, PKCS#7 incl. Verify/Decrypt on the result, BER transcoder, PKCS#8 with/without password, SM2 private/public key structures, PKIX, PEM and hex readers, PKCS#12 Decode/DecodeAll/ToPEM, SM2 ciphertext raw/ASN.1, signatures, compressed points, SM4 key PEM, 16 TLS handshake message decoders, session state, ticket decryption, TLS key-pair loaders, CertPool PEM) a corpus of valid encodings produced by the library and derived from each: every truncation, single-byte substitutions from {00,01,7f,80,ff,b^1,b^80}, every TLV length rewritten to {0,len-1,len+1,0x80,0x84ffffffff}, universal tag swaps, seeded depth-2 derivations (two edits: substitution, truncation, span deletion/duplication, splice with another valid encoding), BER nesting to depth 10^4 (definite and indefinite), empty input and random strings. Monitors: recover() per call + journal (child process), per-call thread CPU budget (2 s + 1 us/byte; a watcher converts a call that burns 20 s CPU into a verdict), serial allocation sampling (TotalAlloc delta <= 64*len + 8 MiB). Distinct non-trivial = distinct (decoder, derivation kind, corpus item).",
+	rep.Meta("cases: for every decoder of untrusted bytes (certificates, CSRs, CRLs, PKCS#7 incl. Verify/Decrypt on the result, BER transcoder, PKCS#8 with/without password, SM2 private/public key structures, PKIX, PEM and hex readers, PKCS#12 Decode/DecodeAll/ToPEM, SM2 ciphertext raw/ASN.1, signatures, compressed points, SM4 key PEM, 16 TLS handshake message decoders, session state, ticket decryption, TLS key-pair loaders, CertPool PEM) a corpus of valid encodings produced by the library and derived from each: every truncation, single-byte substitutions from {00,01,7f,80,ff,b^1,b^80}, every TLV length rewritten to {0,len-1,len+1,0x80,0x84ffffffff}, universal tag swaps, structure-preserving edits of the DER tree with all enclosing lengths recomputed (leading zeros / trailing zero / 0xff lead / shortened / empty values; repeated, dropped, rotated, absent children), seeded depth-2 derivations (two edits: substitution, truncation, span deletion/duplication, splice with another valid encoding), BER nesting to depth 10^4 (definite and indefinite), empty input and random strings. Monitors: recover() per call + journal (child process), per-call thread CPU budget (2 s + 1 us/byte; a watcher converts a call that burns 20 s CPU into a verdict), serial allocation sampling (TotalAlloc delta <= 64*len + 8 MiB). Distinct non-trivial = distinct (decoder, derivation kind, corpus item).",
 		20000, []string{"Go runtime recover/rusage/MemStats"},
 		[]string{"bytes that encode a password-stretching iteration count are not mutated (the property exempts them)"})
 	r := c.Rng("c18")
@@ -394,6 +394,29 @@ func runC18(c *Ctx) {
 						cases = append(cases, tcase{d, "tag-swap", m, ci})
 					}
 				}
+			}
+		}
+	}
+	// structure-preserving edits on the DER tree (lengths of all enclosing TLVs are recomputed): leading zero bytes in
+	// front of INTEGER / OCTET STRING / BIT STRING values, a trailing zero, a 0xff lead byte, first/last byte removed,
+	// empty and one-byte contents; for constructed nodes first child repeated, last child dropped, children rotated,
+	// no children. OCTET/BIT STRINGs that wrap a further encoding are descended into.
+	for di := range decs {
+		d := &decs[di]
+		if !d.asn1 {
+			continue
+		}
+		for ci, v := range d.corpus {
+			var prot func([]byte) bool
+			if d.stretch {
+				prot = func(c []byte) bool { return len(c) == 2 && c[0] == 0x08 && c[1] == 0x00 } // INTEGER 2048
+			}
+			limit := 0
+			if !c.Thorough && (d.heavy || len(v) > 1500) {
+				limit = 40
+			}
+			for _, m := range derTreeEdits(v, prot, limit) {
+				cases = append(cases, tcase{d, "tree-edit", m, ci})
 			}
 		}
 	}
